@@ -18,6 +18,8 @@ NOT_DECIDED = ("the three-way stamp formula against histories of writes within a
 
 
 def check(ctx):
+    from . import _framing as _fr
+    _fr.tracts_only_when_taken(ctx, "T3-taken")
     ctx.rule("T3-place", "transit marker via addTract; enter marker via frame.insertEnact at index 0 only when a frame was "
              "named, after a de-duplication scan guarded by isinstance(enact.actor, Actor)")
     ctx.rule("T9-key", "marker key = '<'.join([framer.name, marker or frame.name]); Mark created only if absent")
